@@ -78,6 +78,7 @@ struct Cfg {
   long packets = 200;
   int seed = 42;
   int writer = 0;
+  int fields_mask = 0; // non-default output fields switched on
   Sched sched;
 
   bool periodic(int k) const { return bc_lo[k] == 0; }
@@ -147,6 +148,7 @@ struct Cfg {
     j["packets"] = (long long)packets;
     j["seed"] = seed;
     j["writer"] = writer;
+    j["fields_mask"] = fields_mask;
     j["sched"] = sched.to_json();
     return j;
   }
@@ -210,6 +212,7 @@ struct Cfg {
     c.packets = j.at("packets").as_int(200);
     c.seed = (int)j.at("seed").as_int(42);
     c.writer = (int)j.at("writer").as_int(0);
+    c.fields_mask = (int)j.at("fields_mask").as_int(0);
     c.sched = Sched::from_json(j.at("sched"));
     return c;
   }
@@ -394,6 +397,26 @@ struct Cfg {
       << (dump_every_step ? "-1. s" : "1.e30 s")
       << "\n  maximum number of backups: " << backups
       << "\n  maximum time: 1.e30 s\n";
+    if (fields_mask != 0) {
+      // non-default output fields
+      o << "DensityGridWriterFields:\n";
+      if (fields_mask & 1)
+        o << "  Temperature: 1\n";
+      if (fields_mask & 2)
+        o << "  CosmicRayFactor: 1\n";
+      if (fields_mask & 4)
+        o << "  NumberDensity: 1\n";
+      if (fields_mask & 8)
+        o << "  Acceleration: 1\n";
+      if (fields_mask & 16)
+        o << "  Mass: 1\n";
+      if (fields_mask & 32)
+        o << "  Momentum: 1\n";
+      if (fields_mask & 64)
+        o << "  TotalEnergy: 1\n";
+      if (fields_mask & 128)
+        o << "  Pressure: 1\n";
+    }
     o << "DensityGridWriter:\n  type: " << (writer == 0 ? "AsciiFile" : "Gadget")
       << "\n  prefix: snap_\n  padding: 3\n";
     if (mask) {
